@@ -897,6 +897,7 @@ fn biased_cfg(rng: &mut Rng, min_jobs: usize, max_jobs: usize) -> GenCfg {
         p_unreachable_pair: 0.0,
         always_tag: true,
         p_place_tag: 0.2,
+        sparse_place_tags: false,
     }
 }
 
